@@ -135,6 +135,8 @@ type Exec struct {
 	quantDepth    int
 	specSymLoop   bool // a probed spec-function inlining met a loop it could not unroll
 	specProbe     bool
+	oblPrefix     string   // name prefix for obligations of a callback literal under check
+	oblProps      []string // their property tags when the callback contract names some
 
 	guardMarks   []int
 	useStrCat    bool
@@ -219,6 +221,12 @@ func (x *Exec) oblige(st *State, kind, clause string, goal *Term, pos token.Pos,
 	}
 	if x.infeasible(st) {
 		return
+	}
+	if x.oblPrefix != "" {
+		clause = x.oblPrefix + clause
+		if props == nil && x.oblProps != nil {
+			props = x.oblProps
+		}
 	}
 	base := x.qual + "." + clause
 	x.nameCount[base+x.caseLabel]++
@@ -887,6 +895,20 @@ func (x *Exec) execStmt1(st *State, s ast.Stmt) *State {
 		st.defers = append(st.defers, &deferred{call: s.Call})
 		return st
 	case *ast.GoStmt:
+		if lit, ok := s.Call.Fun.(*ast.FuncLit); ok {
+			if c := x.eng.cf.Contracts[x.qual]; c != nil && c.GoInline {
+				// the goroutine's own sequence of actions, run in place
+				x.note("go-statement-inlined")
+				var args []*Value
+				for _, a := range s.Call.Args {
+					args = append(args, x.eval(st, a))
+				}
+				if sig, ok := x.eng.info.TypeOf(lit).(*types.Signature); ok {
+					x.inlineClosure(st, &closure{lit: lit}, args, sig)
+				}
+				return st
+			}
+		}
 		x.note("go-statement")
 		// evaluate arguments (they may panic), drop the call
 		for _, a := range s.Call.Args {
